@@ -381,15 +381,31 @@ def chain_laws(ctx, rep):
             for _ in range(n):
                 y = f(y, g)
             mid = rep.val(y).copy()
+            # the drifted intermediate value (a member to ~n*1e-16) is itself invertible and divisible
+            e1 = rep.val(y.inv() * y)
+            e2 = rep.val(y / y) if hasdiv(rep) else e1
+            if hasdiv(rep) and n <= 100 and rep.scale(mid) < 1e3:
+                pw = ((y ** 8) ** 8) ** 8
+                e3 = rep.val(pw.inv() * pw)
+            else:
+                e3 = e1
             for _ in range(n):
                 y = bk(y, g)
-            return mid, rep.val(y)
+            return mid, rep.val(y), e1, e2, e3
         ok, r = call(go)
         ctx.count('transitions', 2 * n)
         if not ok:
             ctx.fail(cid, c + '.expr', 'raises:' + type(r).__name__, P, '%d steps of %s raised %r' % (n, pn, r))
             continue
-        mid, back = r
+        mid, back, e1, e2, e3 = r
+        I0 = rep.val(rep.ident())
+        for nm_, e_ in (('y.inv()*y', e1), ('y/y', e2), ('((y**8)**8)**8 inverted', e3)):
+            if c.startswith('Twist'):
+                okk_ = np.all(np.isfinite(e_)) and ref.maxdiff(rep.motion(e_), rep.motion(I0)) <= rep.tol * n * max(1.0, float(np.abs(rep.motion(mid)).max()))
+            else:
+                okk_, _ = rep.same(e_, I0, rep.scale(mid) * max(n, 64))
+            if not okk_:
+                ctx.fail(cid, c + '.expr', 'mismatch', dict(P, law='chain-inverse', expr=nm_), 'after %d steps of %s: %s is not the identity' % (n, pn, nm_))
         if not (np.all(np.isfinite(mid)) and np.all(np.isfinite(back))):
             ctx.fail(cid, c + '.expr', 'nan', P, 'non-finite value after %d steps of %s' % (n, pn))
             continue
